@@ -2,8 +2,8 @@
 // blocks so that the match finder's 260 KiB hash tables are not mmap'ed/unmapped in every execution
 // (page faults dominated the run time). Cached blocks are ASan-poisoned while they sit in the cache.
 // Only relaxed atomics are used: they add no happens-before edges that could hide a race from TSan.
-// A block taken from the cache is announced to ThreadSanitizer as new memory (what free()+malloc() would have done): without that,
-// the previous owner's last reads (e.g. lzma2_encoder_end) and the new owner's first writes (lzma2_encoder_init) look like a race.
+// A block that goes through the cache carries the happens-before edge that free()+malloc() would have given it (see HA_CACHE_PUT):
+// without that the previous owner's last reads (e.g. lzma2_encoder_end) and the new owner's first writes look like a race.
 #ifndef HALLOC_H
 #define HALLOC_H
 #include <lzma.h>
@@ -31,9 +31,14 @@ void __asan_unpoison_memory_region(void const volatile *addr, size_t size);
 #  define HA_TSAN 1
 #endif
 #ifdef HA_TSAN
-void AnnotateNewMemory(const char *file, int line, const volatile void *mem, size_t size);
-#  define HA_NEW_MEMORY(p, n) AnnotateNewMemory(__FILE__, __LINE__, (p), (n))
+// What free()+malloc() of the same chunk by two threads does in any real allocator (its lock orders the old owner's last accesses
+// before the new owner's first ones): a release on the block when it enters the cache, an acquire when it leaves. The edge is tied to
+// this one block, so it cannot order anything else. (AnnotateNewMemory() is an empty function in this compiler-rt.)
+void __tsan_acquire(void *addr); void __tsan_release(void *addr);
+#  define HA_CACHE_PUT(p) __tsan_release(p)
+#  define HA_NEW_MEMORY(p, n) __tsan_acquire((void *)((ha_hdr *)(p) - 1))
 #else
+#  define HA_CACHE_PUT(p) ((void)0)
 #  define HA_NEW_MEMORY(p, n) ((void)0)
 #endif
 #define HA_BIG 16384
@@ -63,7 +68,7 @@ static void ha_free(void *o, void *ptr) {
 			size_t s = atomic_load_explicit(&ha_cache[i].size, memory_order_relaxed);
 			if (s != 0 && s != h->size) continue;
 			atomic_store_explicit(&ha_cache[i].size, h->size, memory_order_relaxed);
-			__asan_poison_memory_region(h + 1, h->size);
+			__asan_poison_memory_region(h + 1, h->size); HA_CACHE_PUT(h);
 			if (atomic_compare_exchange_strong_explicit(&ha_cache[i].p, &expect, h, memory_order_relaxed, memory_order_relaxed)) return;
 			__asan_unpoison_memory_region(h + 1, h->size);
 		} }
